@@ -68,7 +68,7 @@ def pipeline(ctx):
         serial = ctx.sut(e['kcenters'].kcenters, Xser, metric, use_triangle_inequality=(algo == 'kcenters_tri'), **kw)
     else:
         serial = ctx.sut(e['hybrid'].hybrid, Xser, metric, n_iters=0, **kw)
-    g, tie_free = M.greedy_run(P.X, P.model_metric, k, cutoff)
+    g, tie_free = M.greedy_run(P.X, P.model_metric, k, cutoff, tol=P.tie_tol(), cut_tol=P.cut_tol())
 
     # ---- distributed run
     locals_ = [P.local(r) for r in range(P.N)]
